@@ -8,6 +8,7 @@ import (
 	"github.com/gopher-fleece/gleece/v2/definitions"
 	"github.com/gopher-fleece/gleece/v2/generator/swagen/swagtool"
 	"github.com/gopher-fleece/gleece/v2/infrastructure/logger"
+	"github.com/gopher-fleece/gleece/v2/infrastructure/verifhook"
 )
 
 // GenerateSpec generates the OpenAPI specification
@@ -65,12 +66,15 @@ func GenerateSpec(config *definitions.OpenAPIGeneratorConfig, defs []definitions
 		return nil, err
 	}
 	logger.Info("Controllers spec generated successfully")
+	verifhook.Emit("Spec30Built")
 
 	// Validate the spec to ensure it meets OpenAPI requirements
 	if err := openapi.Validate(context.Background()); err != nil {
 		logger.Error("Spec Validation failed - %v", err.Error())
+		verifhook.Emit("Spec30Validated", "ok", false)
 		return nil, err
 	}
+	verifhook.Emit("Spec30Validated", "ok", true)
 	logger.Info("OpenAPI specification validated successfully")
 
 	// Convert the spec to JSON with indentation for easy reading
